@@ -8,8 +8,8 @@ from .common import Leaf
 from .c16 import cmp_obs
 
 REQUIRED_WITNESSES = ['C', 'C+hdr', 'P', 'E:HeaderName']
-BOUNDS = {'quick': 'probe parse from an arbitrary pre-state (all fields Some(opaque), headers slice of current length c in {capacity, capacity-1} whose slots hold opaque headers) versus a fresh value over an equal-length array: header blocks to 7 bytes behind a concrete start line (options symbolic to 5-6), fully symbolic start lines to 7 / 10 bytes, capacities 1..2',
-          'thorough': 'header blocks to 9 / 8; start lines to 9 / 13'}
+BOUNDS = {'quick': 'probe parse from an arbitrary pre-state (all fields Some(opaque), headers slice of current length c in {capacity, capacity-1} whose slots hold opaque headers) versus a fresh value over an equal-length array: header blocks to 7 bytes behind a concrete start line (options symbolic to 5-6), fully symbolic start lines to 7 / 10 bytes, capacities 1..2; the documented loop on one value: arbitrary pre-state, then a parse of the first k bytes of the probe buffer itself (every k), then the whole buffer, on 8 message templates with 2 symbolic bytes at the method / target / version / code / reason / a header',
+          'thorough': 'header blocks to 9 / 8; start lines to 9 / 13; loop templates with 3 symbolic bytes'}
 OUTSIDE = 'longer probe buffers. Histories of any length are covered because the pre-state is arbitrary within the representation invariant (fields are Options, headers is a valid slice of initialised slots), and C17 shows every call re-establishes that invariant'
 EXPLANATION = 'status always equal; on Complete all fields and headers equal and free of the opaque pre-state values'
 
@@ -60,6 +60,79 @@ def leaf(E, params):
     return rec
 
 
+def leaf_loop(E, params):
+    """the documented loop on ONE value: arbitrary pre-state (as in `leaf`), then a parse of the first k bytes of the buffer (the same
+    memory, so fields left by it point INTO the probe buffer), then the probe on the whole buffer -- versus a fresh value"""
+    sc0 = Scenario(**params['scenario']); k = params['k']
+    I = instantiate(E, sc0)
+    S = E.programs[sc0.variant].structs
+    ty = 'Request' if sc0.kind == 'req' else 'Response'
+    fields = S[ty]
+    cells = [[Ref([f'prename{i}'], (0,), 7, f'pre{i}'), Ref([f'preval{i}'], (0,), 6, f'pre{i}')] for i in range(sc0.cap)]
+    pre = []
+    for f in fields:
+        if f == 'headers': pre.append(Ref(cells, (0,), sc0.cap, 'hdr'))
+        elif f in ('method', 'path', 'reason'): pre.append(some(Ref([f'pre-{f}'], (0,), 5, 'prefield')))
+        elif f == 'version': pre.append(some(IntV(8, 7)))
+        elif f == 'code': pre.append(some(IntV(16, 777)))
+        else: raise Exception('unknown field ' + f)
+    a1 = run_impl(E, I, cells=cells, pre=pre, buflen=k)
+    L = Leaf(E, I, params['prop']); a = b = None
+    if a1.status == 'PANIC': L.concrete(False, f'panic: {a1.panic}')
+    else:
+        cur = a1.hdr_len
+        a = run_impl(E, I, cells=cells, pre=list(a1.val))
+        fresh_sc = Scenario(**dict(params['scenario'], cap=cur))
+        b = run_impl(E, I, cells=make_cells(E, fresh_sc))
+        if 'PANIC' in (a.status, b.status): L.concrete(False, f'panic: {a.panic or b.panic}')
+        else:
+            L.concrete(a.status == b.status and a.n == b.n, f'value reused after parsing the first {k} bytes: {a.status} n={a.n}; fresh value: {b.status} n={b.n}')
+            if a.status == 'C' and b.status == 'C':
+                cmp_obs(L, a, b, 0, f'reused (after the first {k} bytes) vs fresh: ')
+                for nm, v in a.fields.items():
+                    if isinstance(v, tuple): L.concrete(v[3] != 'prefield', f'{nm} still holds the value of an earlier parse')
+                    elif nm == 'version' and v is not None and v.conc(): L.concrete(v.v != 7, 'version still holds the value of an earlier parse')
+                L.concrete(all(not (isinstance(h, str) and h.startswith('pre')) for h in a.headers), 'an exposed header is left over from an earlier parse')
+    o = b if b is not None else a1
+    viol = L.finish(common.predicted_json(E, I, o))
+    for v in viol:
+        v['rel'] = 'history'
+        # native history: something that leaves every field set (other memory), then the first k bytes of the probe buffer itself
+        first = b'HTTP/1.0 299 Pre\r\nX: y\r\n\r\n' if sc0.kind == 'resp' else b'PRE /pre HTTP/1.0\r\nX: y\r\n\r\n'
+        v['history'] = [first.hex(), first[:-2].hex() + '01', f'p{k}']
+    lab = common.outcome_label(o)
+    rec = {'outcome': lab, 'obligations': L.nobl, 'violations': viol, 'witnesses': {lab: 1, ('C+hdr' if o.status == 'C' and o.headers else lab): 1}}
+    s = common.sample_of(E, I, o, f' | after the first {k} bytes: {common.outcome_label(a1)}')
+    if s: rec['sample'] = s
+    return rec
+
+
+LOOP_TEMPLATES = [
+    # (name, kind, prefix, nsym, suffix, flags): the symbolic bytes sit where a resumed parse would have to re-validate
+    ('req-version', 'req', b'GET /b HTTP/1', 2, b'\r\nHost: b\r\n\r\n', F0),
+    ('req-target', 'req', b'PUT /', 2, b' HTTP/1.0\nA: b\n\n', flags(multi_sp_req='sym')),
+    ('req-method', 'req', b'', 2, b'T /x HTTP/1.1\r\nA: b\r\n\r\n', F0),
+    ('req-header', 'req', b'GET / HTTP/1.1\r\nA', 2, b'b\r\nC: d\r\n\r\n', REQ_HDR_SYM),
+    ('resp-code', 'resp', b'HTTP/1.1 2', 2, b' OK\r\nA: b\r\n\r\n', flags(multi_sp_resp='sym')),
+    ('resp-version', 'resp', b'HTTP/1', 2, b' 204 No\r\nA: b\r\n\r\n', F0),
+    ('resp-reason', 'resp', b'HTTP/1.0 404 N', 2, b't\r\nA: b\r\n\r\n', flags(multi_sp_resp='sym')),
+    ('resp-header', 'resp', b'HTTP/1.1 200 OK\r\nA', 2, b'b\r\n c\r\nD: e\r\n\r\n', RESP_HDR_SYM),
+]
+
+
+def loop_jobs(P, G, tier):
+    J = []
+    for nm, kind, pre, ns, suf, fl in LOOP_TEMPLATES:
+        ns = ns + (1 if tier == 'thorough' else 0)
+        total = len(pre) + ns + len(suf)
+        for k in range(0, total + 1):
+            jb = product_job(P, f'loop-{nm}-k{k}', G, sc(kind, ns, prefix=pre, suffix=suf, api='cfg', fl=fl, cap=3), T(tier, 60, 300),
+                             f'{kind} {pre!r} + {ns} symbolic bytes + {suf!r}: arbitrary pre-state, parse of the first {k} bytes (same memory), then the whole buffer, vs a fresh value',
+                             family=f'loop-{nm}', mandatory=False, fn='mirse.props.c18.leaf_loop', extra={'k': k}, validate_every=0)
+            jb.small = True; J.append(jb)
+    return J
+
+
 def jobs(tier, seed):
     P = 'C18'; G = ['history']; J = []
     bud = T(tier, 100, 900)
@@ -81,4 +154,5 @@ def jobs(tier, seed):
     for pre in (b'HTTP/1.1 204', b'HTTP/1.0 200 '):
         J += deepen(P, G, f'status-tail-{len(pre)}', lambda n, pre=pre: sc('resp', n, prefix=pre, api='cfg', fl=flags(multi_sp_resp='sym'), cap=1), range(T(tier, 6, 4), T(tier, 6, 8) + 1), bud,
                     f'response {pre!r} + ' + 'every {n}-byte remainder', 5, fn='mirse.props.c18.leaf', extra={'curlen': 1})
+    J += loop_jobs(P, G, tier)
     return J
